@@ -645,11 +645,11 @@ func runC19(c *Ctx) {
 			good := false
 			for _, f := range fns {
 				for _, a := range deepStoresTo(f, wi) {
-					bo, ok := stripConv(a.Store.Val).(*ssa.BinOp)
-					if !ok || bo.Op != token.ADD || !loadOfField(bo.X, wi) {
+					inc, ok := incrementOf(a.Store.Val, wi)
+					if !ok {
 						continue
 					}
-					amount := a.translate(bo.Y)
+					amount := a.translate(inc)
 					// n is the count of the read (Extract #0 of r.Read, or the completion's n parameter)
 					var errv ssa.Value
 					okN := false
